@@ -856,11 +856,12 @@ def cmd_harness(args):
         for p in r.problems:
             print("   NO-VERDICT:", p[:2000])
             rc = max(rc, 2)
-        nunk = sum(1 for ob in r.obligations if ob["status"] == "UNKNOWN")
+        nunk = sum(1 for ob in r.obligations if ob["status"] in ("UNKNOWN", "ERROR"))
         if nunk:
-            print("   (%d obligations UNKNOWN: cut off by a failed unwinding assertion)" % nunk)
+            print("   (%d obligations UNKNOWN/ERROR: cut off by a failed unwinding assertion or a solver error)" % nunk)
+        shown = 0
         for ob in r.obligations:
-            if ob["status"] == "UNKNOWN":
+            if ob["status"] in ("UNKNOWN", "ERROR"):
                 continue
             if brief and (ob["status"] == "SUCCESS" or (ob["label"] or "").startswith(("canary/", "reach/"))):
                 continue
